@@ -22,7 +22,7 @@ class SramWorld(World):
     )
 
     def runs(self, prop, tier):
-        return {"quick": 1200, "thorough": 40000}[tier]
+        return {"quick": 4000, "thorough": 50000}[tier]
 
     def gen_config(self, rng, prop):
         dw = rng.choice([8, 16, 32, 64])
